@@ -653,6 +653,9 @@ func (st *wstate) checkMulti(i int, l *scen.Lifetime, lf *model.Life, after worl
 				// natural order of the ids: digit runs compare as numbers, everything else
 				// byte-wise (the generators never produce leading zeros)
 				bad := !naturalLess(a.ID, b.ID)
+				if bad && a.ID != b.ID && !naturalLess(b.ID, a.ID) {
+					bad = false // a tie (ids that differ only in the zero padding of a number): either order is natural
+				}
 				if a.Test == b.Test {
 					bad = a.K >= b.K
 				}
@@ -722,3 +725,20 @@ func naturalLess(a, b string) bool {
 }
 
 func hasDigit(s string) bool { return strings.ContainsAny(s, "0123456789") }
+
+// naturalTies: two different ids of the file are equal in natural order (the order is not
+// total there, so nothing is demanded about which of them comes first).
+func naturalTies(b []byte) bool {
+	act, err := ParseSnap(b)
+	if err != nil {
+		return true
+	}
+	for i := range act {
+		for j := i + 1; j < len(act); j++ {
+			if act[i].ID != act[j].ID && !naturalLess(act[i].ID, act[j].ID) && !naturalLess(act[j].ID, act[i].ID) {
+				return true
+			}
+		}
+	}
+	return false
+}
